@@ -7,6 +7,8 @@ keys; when two members share an id the first one added wins; lookup of an absent
 iteration are those of the key set."""
 from __future__ import annotations
 
+import ast
+
 from pyvc import term as tm
 from pyvc.term import INT, BOOL, STR
 from pyvc.values import VT, VObj, VNone, NONE, VTuple, VList, VDict, VClass, new_oid
@@ -56,6 +58,7 @@ def union_first_wins(D0, D1, R, upto, idx):
 
 
 class AddLoop(LoopSpec):
+    kind = ast.For
     def __init__(self, con):
         self.con = con
 
@@ -199,6 +202,7 @@ class Iter(Contract):
 
 # ------------------------------------------------------------------------------------------------ find_resistance
 class ResLoop(LoopSpec):
+    kind, iterates = ast.For, "features"
     def __init__(self, con):
         self.con = con
 
@@ -361,6 +365,7 @@ def _the_set(st):
 
 
 class DirLoop(LoopSpec):
+    kind, iterates = ast.For, "filterdir"
     def __init__(self, con):
         self.con = con
 
